@@ -2,6 +2,7 @@ package t
 
 import (
 	"fmt"
+	"math"
 	"math/rand"
 )
 
@@ -155,6 +156,42 @@ func Run(try func(string, func() string)) {
 		for _, b := range [][]int{{}, {9, 5, 1}, {3, -1, 8}} {
 			for _, lo := range []int{-1, 0, 1, 3, 4} {
 				try(fmt.Sprintf("rackScript %v %v %d", a, b, lo), func() string { return fmt.Sprint(rackScript(a, b, lo)) })
+			}
+		}
+	}
+	showLinks := func(ls []link) string {
+		out := "["
+		for i, l := range ls {
+			if i > 0 {
+				out += " "
+			}
+			out += fmt.Sprintf("%d:%d:%d", l.a, l.b, math.Float64bits(l.w))
+		}
+		return out + "]"
+	}
+	wss := [][]float64{{}, {1.5}, {0, math.Copysign(0, -1), math.NaN(), math.Inf(-1), 2.5e-320, -7.25}}
+	for _, n := range []int{-1, 0, 1, 3} {
+		for _, ps := range [][]int{{}, {0, 0}, {1, 0, 0, 1, 2, 2, 1, 2}, {0, 3, 2, 1, -1, 0, 5}} {
+			for _, ws := range wss {
+				for _, flip := range []bool{false, true} {
+					try(fmt.Sprintf("meshScript %d %v %d %v", n, ps, len(ws), flip), func() string {
+						m, ls := meshScript(n, ps, ws, flip)
+						return fmt.Sprint(m, " ", showLinks(ls))
+					})
+				}
+			}
+		}
+	}
+	for _, v := range []int{-1, 0, 1, 2, 3} {
+		try(fmt.Sprintf("mesh.at %d", v), func() string {
+			g := newMesh(3, link{0, 1, 1.5}, link{2, 2, -0.5}, link{1, 0, math.NaN()}, link{1, 7, 3})
+			return showLinks(g.at(v))
+		})
+	}
+	for _, xs := range [][]int{{}, {4}, {4, 5, 7, 4}} {
+		for _, i := range []int{-1, 0, 1, 3, 4} {
+			for _, v := range []int{4, 5, 7, 9} {
+				try(fmt.Sprintf("pick %v %d %d", xs, i, v), func() string { return fmt.Sprint(pick(xs, i, v)) })
 			}
 		}
 	}
